@@ -12,6 +12,17 @@ def lab(x):
     return json.dumps({"l": x}, sort_keys=True, separators=(",", ":"))
 
 
+def _c(d):
+    return json.dumps(d, sort_keys=True, separators=(",", ":"))
+
+
+# data dicts that are different but easy to confuse: None against a missing key, equal sizes with different key sets,
+# equal values under different keys, nested differences, int against string
+TRICKY = [_c({"app": "b", "title": None}), _c({"app": "b", "url": "u"}), _c({"app": "b"}), _c({"app": "b", "title": None, "url": None}),
+          _c({"app": None}), _c({}), _c({"title": "b"}), _c({"app": "b", "n": {"k": [1, 2]}}), _c({"app": "b", "n": {"k": [1, 3]}}),
+          _c({"app": 1}), _c({"app": "1"}), _c({"app": "b", "title": ""})]
+
+
 def mergeable(pt, a, b):
     return a[3] == b[3] and a[1] <= b[1] <= a[1] + a[2] + pt and a[2] >= 0
 
@@ -89,6 +100,13 @@ class C08(Prop):
             b_ts = (a[1] + a[2] + ptus) // 1000 * 1000 + 1000 * rng.choice([-2, -1, 0, 1, 2, rng.randint(-1000, 1000)])
             b = [None, rng.choice([b_ts, b_ts, a[1], a[1] - 1000, a[1] + 1000]), rng.randint(-10**6, 3 * 10**6), lab(rng.choice("AB"))]
             out.append(("random-merge", {"k": "merge", "pt": pt, "a": a, "b": b}))
+        # pairs and short lists over confusable data dicts, always inside the pulse window
+        for da in TRICKY:
+            for db in TRICKY:
+                out.append(("tricky-data-merge", {"k": "merge", "pt": 5, "a": [None, 0, U, da], "b": [None, U, U, db]}))
+        for _ in range(ctx.pick(300, 5000)):
+            l = [[None, i * U, U, rng.choice(TRICKY)] for i in range(rng.randint(2, 5))]
+            out.append(("tricky-data-reduce", {"k": "reduce", "pt": 5, "l": l}))
         # gaps of whole days (and longer) plus/minus a little: timedelta has separate days/seconds/microseconds fields
         DAY = 86_400_000_000
         for _ in range(ctx.pick(1500, 50000)):
